@@ -448,6 +448,10 @@ more:
 	default:
 		return 0;
 	}
+	if (UNLIKELY(d > 366 || d < -366 || b > 366 || b < -366)) {
+		/* out of range */
+		return 0;
+	}
 	return (d << 16) ^ (b << 2) ^ sem;
 }
 
